@@ -17,7 +17,7 @@ def sh(cmd, **kw):
 
 
 def pytest_ok(tree, path):
-    r = sh(f"cd {tree} && PYTHONPATH={tree} /venv/bin/python -m pytest -q -p no:cacheprovider --timeout=600 {path}")
+    r = sh(f"cd {tree} && PYTHONPATH={tree} /venv/bin/python -m pytest -q -p no:cacheprovider -c {tree}/pyproject.toml --rootdir {tree} --timeout=600 {path}")
     tail = (r.stdout.strip().splitlines() or ["?"])[-1]
     return r.returncode == 0, tail
 
